@@ -5589,6 +5589,15 @@ class PyCdlib:
         # up front that the Joliet and UDF parts are possible.
         self._check_new_joliet_udf_paths(joliet_path, udf_symlink_path)
 
+        symlink_bytearray = bytearray()
+        if udf_symlink_path is not None and udf_target is not None:
+            # Generate the bytearray representing the symlink; the length of a
+            # path component is stored in a single byte.
+            try:
+                symlink_bytearray = udfmod.symlink_to_bytes(udf_target)
+            except ValueError:
+                raise pycdlibexception.PyCdlibInvalidInput('A component of the UDF symlink target is too long (the maximum is 254 bytes)')
+
         # Checks complete, we can go on to make the symlink.
 
         num_bytes_to_add = 0
@@ -5638,9 +5647,6 @@ class PyCdlib:
             file_ident.new(False, False, udf_name, udf_parent)
             num_new_extents = udf_parent.add_file_ident_desc(file_ident, self.logical_block_size)
             num_bytes_to_add += num_new_extents * self.logical_block_size
-
-            # Generate the bytearry representing the symlink.
-            symlink_bytearray = udfmod.symlink_to_bytes(udf_target)
 
             file_entry = udfmod.UDFFileEntry()
             file_entry.new(len(symlink_bytearray), 'symlink', udf_parent,
